@@ -267,6 +267,74 @@ def per_object_bounds(index: RepoIndex, rep, rule: str) -> None:
               'space takes the maxima of', 'compact convert indexes the maps')
 
 
+def _with_init_attrs(index: RepoIndex, c, m: Func) -> Optional[Func]:
+    """the method with every read of an attribute that the constructor assigns exactly once
+    (and nothing else in the class assigns) replaced by the constructor's expression:
+    constants precomputed in `__init__` are read as what they stand for"""
+    import copy
+    init = c.methods.get('__init__')
+    if init is None:
+        return None
+    vals: Dict[str, ast.AST] = {}
+    count: Dict[str, int] = {}
+    for meth in c.methods.values():
+        for n in ast.walk(meth.node):
+            if isinstance(n, ast.Attribute) and isinstance(n.ctx, (ast.Store, ast.Del)) and \
+                    src(n.value) == 'self':
+                count[n.attr] = count.get(n.attr, 0) + 1
+    for st in init.body():
+        if not isinstance(st, ast.Assign) or len(st.targets) != 1:
+            continue
+        t = st.targets[0]
+        if isinstance(t, ast.Attribute) and src(t.value) == 'self':
+            vals[t.attr] = st.value
+        elif isinstance(t, ast.Tuple) and all(isinstance(x, ast.Attribute)
+                                              and src(x.value) == 'self' for x in t.elts):
+            for i, x in enumerate(t.elts):
+                vals[x.attr] = ast.Subscript(st.value, ast.Constant(i), ast.Load())
+    vals = {a: v for a, v in vals.items() if count.get(a) == 1}
+
+    class T(ast.NodeTransformer):
+        depth = 0
+
+        def visit_Attribute(self, n: ast.Attribute):
+            if isinstance(n.ctx, ast.Load) and src(n.value) == 'self' and n.attr in vals and \
+                    self.depth < 4 and not n.attr.endswith('_space'):
+                self.depth += 1
+                out = self.visit(copy.deepcopy(vals[n.attr]))
+                self.depth -= 1
+                return out
+            return self.generic_visit(n)
+    node = T().visit(copy.deepcopy(m.node))
+    ast.fix_missing_locations(node)
+    return Func(m.name, m.module, node, c)
+
+
+def _same_channels_as_sibling(index: RepoIndex, c, fn_pref: str) -> bool:
+    """second reading of `<Cls>.convert`: with constructor constants expanded and new helpers
+    read through, it computes the same three affine channels as the sibling conversion
+    function, with maxima taken over the very sets the class's `space` takes them over"""
+    try:
+        cv = _with_init_attrs(index, c, c.methods['convert'])
+        fc = index.func(REPR, f'{fn_pref}_grid_object_representation_convert')
+        if cv is None:
+            return False
+        got, _ = channels(cv, index)
+        ref, _ = channels(fc, index)
+        # the set the class's `space` hands to the space function, as the constructor builds it
+        probe = ast.parse('def probe(self):\n    return self._grid_object_types').body[0]
+        pr = _with_init_attrs(index, c, Func('probe', c.module, probe, c))
+        types_text = src(pr.node.body[0].value)
+    except AnalysisError:
+        return False
+    from ..view import view
+    node = view(index, cv)[0]
+    iters = {src(n.args[0].generators[0].iter) for n in ast.walk(node)
+             if classify_max(n) in ('T', 'S')}
+    return len(got) == len(ref) and all(a == b for a, b in zip(got, ref)) and \
+        iters == {types_text}
+
+
 def type_sets(index: RepoIndex, rep, rule: str) -> None:
     for rel, kind, extra in ((STATE, 'State', '{NoneGridObject}'),
                              (OBSR, 'Observation', '{Hidden, NoneGridObject}')):
@@ -301,7 +369,10 @@ def type_sets(index: RepoIndex, rep, rule: str) -> None:
             want = (f'{fn_pref}_grid_object_representation_convert(self._grid_object_types, '
                     f'self._grid_object_colors, {go})') if passes_sets else \
                 f'{fn_pref}_grid_object_representation_convert({go})'
-            rep.check(len(b) == 1 and isinstance(b[0], ast.Return) and src(b[0].value) == want,
+            okc = len(b) == 1 and isinstance(b[0], ast.Return) and src(b[0].value) == want
+            if not okc and passes_sets:
+                okc = _same_channels_as_sibling(index, c, fn_pref)
+            rep.check(okc,
                       rule, rel, f'{c.name}.convert', cv.node.lineno, src(b[-1]),
                       f'{c.name}.convert does not use the sibling conversion with the same sets',
                       f'{c.name}.convert sets')
@@ -337,6 +408,7 @@ def type_sets(index: RepoIndex, rep, rule: str) -> None:
 
 
 def shapes_dtypes(index: RepoIndex, rep, rule_shape: str, rule_dtype: str) -> None:
+    from ..view import view
     # trusted by the shape canonicalisation (guards.dims_of): Shape.as_tuple is (height, width)
     at = index.func('gym_gridverse/geometry.py', 'Shape.as_tuple')
     b = at.body()
@@ -349,7 +421,7 @@ def shapes_dtypes(index: RepoIndex, rep, rule_shape: str, rule_dtype: str) -> No
         sp_attr = f'self.{var}_space'
         c = index.cls(rel, f'Grid{kind}Representation')
         sp = c.methods['space']
-        w = walk_function(sp.node)
+        w = view(index, sp)[1]
         retx = [w.expand(e.value) for e in w.events if e.kind == 'return' and e.value is not None]
         rets = [src(x) for x in retx]
         gor = 'self.grid_object_representation.space'
@@ -362,6 +434,10 @@ def shapes_dtypes(index: RepoIndex, rep, rule_shape: str, rule_dtype: str) -> No
                 len(x.args) == 2 and not x.keywords and src(x.args[0]) == f'{gor}.{bound}' and \
                 dims_of(x.args[1]) == hw
         r0 = retx[0] if len(retx) == 1 else None
+        if r0 is not None:
+            from ..inline import inline_methods_by_name
+            from ..view import VOCABULARY
+            r0 = inline_methods_by_name(index, r0, exclude=VOCABULARY)
         ok = isinstance(r0, ast.Call) and src(r0.func) == 'Space' and len(r0.args) == 3 and \
             not r0.keywords and src(r0.args[0]) == f'{gor}.space_type' and \
             tiled(r0.args[1], 'lower_bound') and tiled(r0.args[2], 'upper_bound')
@@ -370,33 +446,46 @@ def shapes_dtypes(index: RepoIndex, rep, rule_shape: str, rule_dtype: str) -> No
                   f'the space\'s grid shape', f'{c.name}.space tiled (h, w, 1)')
         cv = c.methods['convert']
         p = cv.node.args.args[1].arg
-        w = walk_function(cv.node)
+        w = view(index, cv)[1]
         rets = [e for e in w.events if e.kind == 'return' and e.value is not None]
         ok = False
         got = ''
         if len(rets) == 1:
-            r = rets[0].value
+            r = w.expand(rets[0].value)
             got = src(r)
             if isinstance(r, ast.Call) and src(r.func) == 'np.array' and r.args and \
                     isinstance(r.args[0], ast.ListComp) and \
                     isinstance(r.args[0].elt, ast.ListComp):
+                from ..cellimage import _cols_of, _rows_of2
                 outer, inner = r.args[0], r.args[0].elt
                 yv, xv = src(outer.generators[0].target), src(inner.generators[0].target)
-                ok = src(outer.generators[0].iter) == f'range({p}.grid.shape.height)' and \
-                    src(inner.generators[0].iter) == f'range({p}.grid.shape.width)' and \
-                    src(inner.elt) == f'self.grid_object_representation.convert({p}.grid[{yv}, {xv}])'
+                G = f'{p}.grid'
+                cells = (f'{G}[{yv}, {xv}]', f'{G}[({yv}, {xv})]', f'{G}.objects[{yv}][{xv}]',
+                         f'{G}[Position({yv}, {xv})]')
+                ok = len(outer.generators) == 1 and len(inner.generators) == 1 and \
+                    not outer.generators[0].ifs and not inner.generators[0].ifs and \
+                    _rows_of2(outer.generators[0].iter) == G and \
+                    _cols_of(inner.generators[0].iter) == G and \
+                    src(inner.elt) in [f'self.grid_object_representation.convert({c_})'
+                                       for c_ in cells]
                 dt = [src(a) for a in r.args[1:]] + [src(k.value) for k in r.keywords
                                                      if k.arg == 'dtype']
                 rep.check(dt == ['int'], rule_dtype, rel, f'{c.name}.convert', cv.node.lineno,
                           got[:120], f'{c.name}.convert builds dtype {dt}, not int',
                           f'{c.name}.convert int')
+        if not ok and not (len(rets) == 1 and isinstance(r, ast.Call) and r.args and
+                           isinstance(r.args[0], ast.ListComp)
+                           and isinstance(r.args[0].elt, ast.ListComp)):
+            # a vectorised / memoised conversion: a different algorithm, not a verdict
+            raise AnalysisError(f'{c.name}.convert is not a cell-by-cell nested comprehension '
+                                f'(outside the grammar of the positional rule)')
         rep.check(ok, rule_shape, rel, f'{c.name}.convert', cv.node.lineno, got[:200],
                   f'{c.name}.convert does not place the encoding of cell (y, x) at entry [y][x] '
                   f'(y over the height outside, x over the width inside)',
                   f'{c.name}.convert positional')
         c = index.cls(rel, f'AgentIDGrid{kind}Representation')
         sp = c.methods['space']
-        w = walk_function(sp.node)
+        w = view(index, sp)[1]
         retx = [w.expand(e.value) for e in w.events if e.kind == 'return' and e.value is not None]
         rets = [src(x) for x in retx]
         hw = [f'{sp_attr}.grid_shape.height', f'{sp_attr}.grid_shape.width']
@@ -417,7 +506,7 @@ def shapes_dtypes(index: RepoIndex, rep, rule_shape: str, rule_dtype: str) -> No
                   f'{c.name}.space')
         cv = c.methods['convert']
         p = cv.node.args.args[1].arg
-        w = walk_function(cv.node)
+        w = view(index, cv)[1]
         rets = [e for e in w.events if e.kind == 'return' and e.value is not None]
         arr = src(rets[0].value) if len(rets) == 1 else ''
         d = w.sole_binding(arr) if arr.isidentifier() else None
